@@ -378,7 +378,7 @@ func c10Offsets(c *Ctx, m *Module) {
 				found = true
 			}
 		}
-		r.Check("C10.record-offsets", short(fn.Name())+"/bucket head at hdrLen + hashOff + 4·bucket", m.Pos(fn.Pos()), found, "both sides must address bucket i the same way")
+		r.Check("C10.record-offsets", short(refName(fn))+"/bucket head at hdrLen + hashOff + 4·bucket", m.Pos(fn.Pos()), found, "both sides must address bucket i the same way")
 	}
 	// lookup hashes the name it looks up with hash()
 	okHash := false
